@@ -126,39 +126,38 @@ class TcpConnection():
 
 
     def _set_selector_events_mask(self, mode: Literal["r", "w", "rw"], msg: Any = None) -> None:
-        self.lock.acquire()
-        if mode == "r":
-            tcp_connection.debug(f"[Socket-{self.sock_id}] Updating "\
-                                 f"selector events mask [READ]")
+        with self.lock:
+            if mode == "r":
+                tcp_connection.debug(f"[Socket-{self.sock_id}] Updating "\
+                                     f"selector events mask [READ]")
 
-            self.events_mask = selectors.EVENT_READ
-            self.selector.modify(self.sock, self.events_mask)
-            self.write_mode_on.clear()
-            self.read_mode_on.set()
+                self.events_mask = selectors.EVENT_READ
+                self.selector.modify(self.sock, self.events_mask)
+                self.write_mode_on.clear()
+                self.read_mode_on.set()
             
-        elif mode == "w":
-            tcp_connection.debug(f"[Socket-{self.sock_id}] Updating "\
-                                 f"selector events mask [WRITE]")
+            elif mode == "w":
+                tcp_connection.debug(f"[Socket-{self.sock_id}] Updating "\
+                                     f"selector events mask [WRITE]")
 
-            self.events_mask = selectors.EVENT_WRITE
-            self.selector.modify(self.sock, self.events_mask, data=msg)
-            self.write_mode_on.set()
-            self.read_mode_on.clear()
+                self.events_mask = selectors.EVENT_WRITE
+                self.selector.modify(self.sock, self.events_mask, data=msg)
+                self.write_mode_on.set()
+                self.read_mode_on.clear()
 
 
-        elif mode == "rw":
-            tcp_connection.debug(f"[Socket-{self.sock_id}] Updating "\
-                                 f"selector events mask [READ/WRITE]")
+            elif mode == "rw":
+                tcp_connection.debug(f"[Socket-{self.sock_id}] Updating "\
+                                     f"selector events mask [READ/WRITE]")
 
-            self.events_mask = selectors.EVENT_READ | selectors.EVENT_WRITE
-            self.selector.modify(self.sock, self.events_mask, data=msg)
-            self.write_mode_on.set()
-            self.read_mode_on.set()
+                self.events_mask = selectors.EVENT_READ | selectors.EVENT_WRITE
+                self.selector.modify(self.sock, self.events_mask, data=msg)
+                self.write_mode_on.set()
+                self.read_mode_on.set()
 
-        else:
-            tcp_connection.debug(f"[Socket-{self.sock_id}] Updating "\
-                                 f"selector events mask: Invalid entry")
-        self.lock.release()
+            else:
+                tcp_connection.debug(f"[Socket-{self.sock_id}] Updating "\
+                                     f"selector events mask: Invalid entry")
 
 
     def _write(self) -> None:
